@@ -568,3 +568,58 @@ impl Sweep for ToolchainSweep {
         }
     }
 }
+
+// ------------------------------------------------------------------------------------------ C19 fresh process
+
+/// C19 (c'): case = (source, digest pair computed by the same binary in a FRESH process that
+/// lexed nothing else). The checking process has a long and varied call history on this thread
+/// (and on 15 others), so any process-global or thread-local state that leaks into results shows
+/// up as a difference - also when debug and optimized builds drift the same way.
+pub fn check_xfresh(case: &Case, mut vd: Verdict) -> Verdict {
+    let src = case.t0();
+    let fresh = case.t1();
+    let mine = digest_pair(src);
+    if mine != fresh {
+        vd.violations.push(Violation::new("C19", "history-differs-from-fresh-process", "history-differs-from-fresh-process", format!("this process (long call history) digests {mine}, a fresh process digests {fresh}")));
+    }
+    vd.label("fresh-process-pair");
+    let d = lex_ok(Variant::Rel, src);
+    vd.nontrivial = d.map_or(false, |d| d.toks.iter().any(|t| is_macro_token(t.t)) || !d.errs.is_empty());
+    vd
+}
+
+pub struct FreshProcessSweep {
+    pub seed: u64,
+    pub batches: usize,
+}
+impl Sweep for FreshProcessSweep {
+    fn name(&self) -> String {
+        format!("{} batches of 48 generated inputs: each input is digested by a fresh process of this same binary (no history) and by this process after it has lexed the whole batch twice in different orders", self.batches)
+    }
+    fn chunks(&self) -> usize {
+        self.batches
+    }
+    fn run_chunk(&self, chunk: usize, f: &mut dyn FnMut(Case)) {
+        let texts = batch_inputs(mix2(self.seed, 0xF00D + chunk as u64), 48);
+        // build up history on this thread: 600 unrelated inputs, then the batch forwards and backwards, both builds
+        let unrelated = batch_inputs(mix2(self.seed, 0xBEEF + chunk as u64), 600);
+        for t in unrelated.iter().chain(texts.iter()).chain(texts.iter().rev()) {
+            let _ = lex(Variant::Rel, t);
+            let _ = lex(Variant::Dbg, t);
+        }
+        let exe = match std::env::current_exe() {
+            Ok(e) => e,
+            Err(_) => return,
+        };
+        for t in texts {
+            let hexed: String = t.bytes().map(|b| format!("{b:02x}")).collect();
+            let out = std::process::Command::new(&exe).arg("digest-one").arg(&hexed).output();
+            if let Ok(o) = out {
+                let fresh = String::from_utf8_lossy(&o.stdout).trim().to_string();
+                if !fresh.is_empty() {
+                    f(Case { kind: "xfresh".into(), texts: vec![t, fresh], bytes: vec![], n: 0, gen: "fresh-process" });
+                }
+            }
+        }
+    }
+}
